@@ -325,6 +325,9 @@ def gen_input(rng, paired, fastq, containers=("",), p_interleaved=0.3, p_multime
     if fastq and not paired and rng.random() < p_bam:
         # unaligned BAM (the instrument's or samtools' output): gzip members around the BAM stream
         out = {"layout": "single", "ext": ".bam", "containers": [""], "members": [rng.randint(1, 4)], "comments": 0, "bam": True}
+    r_ = rng.random()
+    if r_ < 0.08:
+        out["stem"] = rng.choice(["_50%_R", "%20x", "%s", " copy", "_%d%%"])
     if rng.random() < p_devfd and ".gz" not in conts and not out.get("bam"):
         # bash process substitution: every input is a pipe given by its /dev/fd/N path
         out["devfd"] = True
@@ -371,11 +374,20 @@ def plain_streams(case):
     return [records_plain(case)[0]]
 
 
+INPUT_NAME_RE = re.compile(r"^/simfs/in[12]?([%_ ][^./]*)?(\.[^/]*)?$")
+
+
+def is_input_name(path):
+    """Whether a SimFS path is one of the generated read files (in, in1, in2 + stem suffix + extensions)."""
+    return bool(INPUT_NAME_RE.match(path))
+
+
 def input_paths(case):
     inp = case["input"]
+    sfx = inp.get("stem", "")  # sample names as people write them: 'dilution_50%_R1', 'reads%20x', 'in copy'
     if inp["layout"] == "two":
-        return [f"{SIMFS}in1{inp['ext']}{inp['containers'][0]}", f"{SIMFS}in2{inp['ext']}{inp['containers'][1]}"]
-    return [f"{SIMFS}in{inp['ext']}{inp['containers'][0]}"]
+        return [f"{SIMFS}in1{sfx}{inp['ext']}{inp['containers'][0]}", f"{SIMFS}in2{sfx}{inp['ext']}{inp['containers'][1]}"]
+    return [f"{SIMFS}in{sfx}{inp['ext']}{inp['containers'][0]}"]
 
 
 def materialize(case, rng_for_members=None):
@@ -770,21 +782,21 @@ def gen_case(rng, profile=None):
     elif untrimmed_mode == "discard_trimmed":
         outs.append(["--discard-trimmed"])
     elif untrimmed_mode == "untrimmed_output":
-        if paired and not interleaved_out:
+        if paired and (not interleaved_out or rng.random() < 0.3):  # (two redirect files next to an interleaved main output are legal)
             pc = out_class(rng, fastq, allowfa)
             outs.append(["--untrimmed-output", out_name(rng, "untr1", fastq, OC, allowfa, cls=pc)])
             outs.append(["--untrimmed-paired-output", out_name(rng, "untr2", fastq, OC, allowfa, cls=pc)])
         else:
             outs.append(["--untrimmed-output", out_name(rng, "untr", fastq, OC, allowfa)])
     if minlen is not None and rng.random() < P["p_redirect"]:
-        if paired and not interleaved_out:
+        if paired and (not interleaved_out or rng.random() < 0.3):
             pc = out_class(rng, fastq, allowfa)
             outs.append(["--too-short-output", out_name(rng, "short1", fastq, OC, allowfa, cls=pc)])
             outs.append(["--too-short-paired-output", out_name(rng, "short2", fastq, OC, allowfa, cls=pc)])
         else:
             outs.append(["--too-short-output", out_name(rng, "short", fastq, OC, allowfa)])
     if maxlen is not None and rng.random() < P["p_redirect"]:
-        if paired and not interleaved_out:
+        if paired and (not interleaved_out or rng.random() < 0.3):
             pc = out_class(rng, fastq, allowfa)
             outs.append(["--too-long-output", out_name(rng, "long1", fastq, OC, allowfa, cls=pc)])
             outs.append(["--too-long-paired-output", out_name(rng, "long2", fastq, OC, allowfa, cls=pc)])
@@ -1050,6 +1062,7 @@ def gen_knobs(rng, case, P=None):
         knobs["emfile_at"] = [knobs["emfile_at"], knobs["emfile_at"] + e.randint(1, 10)]
     knobs["relpaths"] = e.random() < 0.3  # run in the data directory and name all files relative to it
     knobs["preexist"] = e.random() < 0.15  # the named output files exist already (a re-run)
+    knobs["cpus"] = e.choice([1, 1, 2, 3, 16, 16, 64])  # CPUs the job may use (cpuset, affinity, small container)
     if e.random() < P["p_enospc"]:
         # the file system runs full while one of the outputs is written; the error surfaces at flush/close
         knobs["enospc"] = {"nth": e.randint(1, 3), "quota": e.choice([0, e.randint(1, 400), e.randint(400, 4000)])}
